@@ -269,6 +269,39 @@ let rec run_case (kind : string) (body : sexp list) : string * string =
         else sts in
       let connected = (match atom (List.nth body 1) with "never" | "dead" -> false | _ -> true) in
       (show_segs (run_finalize_segs_from connected sh sts), "UNSPECIFIED")
+  | "timed2" ->
+      (* (timed2 FORM OP (labels ...)): two subscriptions of clones of one operator value = two independent timed systems
+         over one subject; the harness numbers the tasks in the order in which they are spawned *)
+      let o = top_of (List.nth body 1) in
+      let s = [| tinit o; tinit o |] in
+      let table = ref [] in
+      let count m = List.length s.(m).tasks in
+      let register m before = for l = before to count m - 1 do table := !table @ [(m, l)] done in
+      register 0 0; register 1 0;
+      let out = ref [] in
+      (* the subject serves its subscribers in the order in which they subscribed: for delay_subscription / subscribe_on that is
+         the order in which the subscribing tasks ran *)
+      let order = ref (List.filter (fun m -> s.(m).src_on) [0; 1]) in
+      let stepm m l =
+        let before = count m in
+        let (s', touts) = tstep o s.(m) l in
+        s.(m) <- s';
+        if s'.src_on && not (List.mem m !order) then order := !order @ [m];
+        List.iter (function
+            | TOut (at, e) -> let b = Buffer.create 16 in show_ev b e; out := Printf.sprintf "(t2 %d %d %s)" m (int_of_n at) (Buffer.contents b) :: !out
+            | _ -> ()) touts;
+        register m before in
+      List.iteri (fun j l ->
+          out := Printf.sprintf "(m %d)" j :: !out;
+          match l with
+          | List [Atom "src"; e] ->
+              let first = !order @ List.filter (fun m -> not (List.mem m !order)) [0; 1] in
+              List.iter (fun m -> stepm m (LSrc (ev_of e))) first
+          | List [Atom "adv"; d] -> stepm 0 (LAdv (narg_n d)); stepm 1 (LAdv (narg_n d))
+          | List [Atom "run"; g] -> (match List.nth_opt !table (int_of g) with Some (m, loc) -> stepm m (LRun (nat_of_int loc)) | None -> ())
+          | List [Atom "unsub"; k] -> stepm (int_of k) LUnsub
+          | _ -> failwith "bad timed2 label") (args (List.nth body 2));
+      (String.concat " " (List.rev !out), "UNSPECIFIED")
   | "timedchain" ->
       (* (timedchain FORM OP (pre U...) (post U...) (labels ...)): the composition of the three models - the chain in
          front feeds the timed system synchronously, its deliveries feed the chain behind it, and once that chain
